@@ -146,6 +146,11 @@ def coq_op(o):
         return f"OTransposed {zstr(o['new'])} {coq_ostr(o['sah'])}"
     if k == "distinct":
         return f"ODistinct {coq_strs(o['columns'])}"
+    if k in ("count_unique", "distinct_arg"):
+        a = o["arg"]
+        term = ("CNone" if a["form"] == "none" else f"(CName {zstr(a['value'])})" if a["form"] == "name"
+                else f"(CInt {zlit(a['value'])})" if a["form"] == "int" else f"(CList {coq_strs(a['value'])})")
+        return ("OCountUnique " if k == "count_unique" else "ODistinctArg ") + term
     raise ValueError(k)
 
 
@@ -162,11 +167,11 @@ def run_model(cases):
     idx = [i for i, c in enumerate(cases) if c["kind"] in ("iops", "irt")]
     res = [None] * len(cases)
     terms = [_natify(coq_case(cases[i])) for i in plain]
-    out = core.coq_eval(PROP, ["Lib.Chars", "Model.Csv", "Model.Table", "Model.TableRun"], "run_case", terms, "case", shard=150)
+    out = core.coq_eval(PROP, ["Lib.Chars", "Model.Csv", "Model.Table", "Model.TableCount", "Model.TableRun"], "run_case", terms, "case", shard=150)
     for i, r in zip(plain, out):
         res[i] = _model_canon(cases[i], r)
     iterms = [_natify(coq_icase(cases[i])) for i in idx]
-    iout = core.coq_eval(PROP, ["Lib.Chars", "Model.Csv", "Model.Table", "Model.TableRun", "Model.TableIndex"], "run_icase", iterms,
+    iout = core.coq_eval(PROP, ["Lib.Chars", "Model.Csv", "Model.Table", "Model.TableCount", "Model.TableRun", "Model.TableIndex"], "run_icase", iterms,
                          "icase", shard=150, tag="i")
     for i, r in zip(idx, iout):
         res[i] = model_floats(r)
@@ -181,6 +186,8 @@ def coq_iop(o):
         return f"IRow {coq_cell(o['label'])}"
     if k == "get_columns_ix":
         return f"IGetColumns {coq_strs(o['columns'])} {cbool(o['with_index'])}"
+    if k == "inner_join_index":
+        return f"IInnerJoinIndex {o['other']}%nat {coq_ostr(o['other_index'])} {zstr(o['prefix'])}"
     return f"IBase ({coq_op(o)})"
 
 
@@ -428,8 +435,12 @@ def rand_op(rng, tb, tables):
         name = rng.choice(["new", "new", rng.choice(header)])
         return dict(op="with_new_column", name=name, expr=rand_expr(rng, tb, cols), columns=cols,
                     form=rng.choice(["callable", "string"]))
-    if w < 0.88 and header:
+    if w < 0.85 and header:
         return dict(op="distinct", columns=sub_cols(rng, header, allow_none=False, kmax=2))
+    if w < 0.88 and header:
+        if rng.random() < 0.6:
+            return dict(op="count_unique", arg=rand_carg(rng, header))
+        return dict(op="distinct_arg", arg=rand_carg(rng, header, allow_none=False))
     if w < 0.94 and header:
         others = [[rng.choice(["t1", "T", ""]), k] for k in range(1, len(tables))
                   if set(tables[k]["header"]) == set(header) and rng.random() < 0.8]
@@ -485,7 +496,7 @@ def random_ops_case(rng, nmax=8):
             break
         o = rand_op(rng, cur, tables)
         ops.append(o)
-        if o["op"] in ("count", "distinct"):
+        if o["op"] in ("count", "distinct", "count_unique", "distinct_arg"):
             continue
         nxt = table_after(cur, o, tables)
         if nxt is None:
@@ -642,6 +653,56 @@ def bigint_block(tier):
                               ops=[dict(op="with_new_column", name="c", expr=e, columns=cols, form=form),
                                    dict(op="count", pred=["sqgt", 2, 2 ** 64], columns=None, form=form)]))
     return cases
+
+
+def arg_forms(header):
+    """every way to spell the columns argument of count_unique / distinct_values"""
+    forms = [dict(form="none", omit=True), dict(form="none", omit=False)]
+    for i, c in enumerate(header):
+        forms += [dict(form="name", value=c), dict(form="int", value=i), dict(form="int", value=i - len(header)),
+                  dict(form="list", value=[c]), dict(form="tuple", value=[c])]
+    for a, b in itertools.permutations(header, 2):
+        forms += [dict(form="list", value=[a, b]), dict(form="tuple", value=[a, b])]
+    if len(header) >= 3:
+        forms += [dict(form="list", value=list(header)), dict(form="tuple", value=list(reversed(header)))]
+    forms += [dict(form="name", value="nope"), dict(form="int", value=len(header)), dict(form="int", value=-len(header) - 1),
+              dict(form="list", value=[header[0], "nope"])]
+    return forms
+
+
+def count_forms_block(tier):
+    """count_unique / distinct_values with every argument form on a ONE-column table, on wider tables and on a
+    table without rows: the keys are scalars exactly when one column is selected, the counts are a plain
+    Counter over the rows, and both methods return the same keys"""
+    one = dict(header=["a"], cols=[[1, True, 2, 1, 0, False]])
+    one_s = dict(header=["s"], cols=[["x", "", "x", "y"]])
+    two = dict(header=["a", "b"], cols=[[1, 1, 2, 1], ["x", "x", "y", "z"]])
+    wide = dict(header=["i", "s", "b", "n"], cols=[[1, 0, 1, 2, 0, 1], ["", "a", "", "ab", "a", "b"], [True, False, True, True, False, False],
+                                                  [None, 1, None, 0, 1, None]])
+    flt = dict(header=["f", "k"], cols=[[0.5, 0.5, 2.0, 1e20], ["p", "p", "q", "p"]])
+    empty = dict(header=["a", "b"], cols=[[], []])
+    cases = []
+    for tb in (one, one_s, two, wide, flt, empty):
+        forms = arg_forms(tb["header"])
+        if tb is wide and tier == "quick":
+            forms = forms[::2] + forms[-4:]
+        for a in forms:
+            cases.append(dict(kind="ops", tables=[tb], block="count-forms", ops=[dict(op="count_unique", arg=a)]))
+            if not a.get("omit"):
+                cases.append(dict(kind="ops", tables=[tb], block="count-forms", ops=[dict(op="distinct_arg", arg=a)]))
+    return cases
+
+
+def rand_carg(rng, header, allow_none=True):
+    w = rng.random()
+    if allow_none and w < 0.2:
+        return dict(form="none", omit=rng.random() < 0.5)
+    if w < 0.4:
+        return dict(form="name", value=rng.choice(header))
+    if w < 0.55:
+        return dict(form="int", value=rng.randrange(-len(header), len(header)))
+    k = rng.randint(1, min(3, len(header)))
+    return dict(form=rng.choice(["list", "tuple"]), value=rng.sample(header, k))
 
 
 def exhaustive_types_block(tier):
@@ -1014,6 +1075,40 @@ def oracle_step(o, cur, tables):
             return None
         idx = [header.index(c) for c in o["columns"]]
         return sorted(_pyset([[r[i] for i in idx] for r in rows]), key=repr)
+    if k in ("count_unique", "distinct_arg"):
+        a = o["arg"]
+        form, val = a["form"], a.get("value")
+        if form == "none":
+            if k == "distinct_arg":
+                return Exc(5)
+            names = list(header)
+        elif form == "name":
+            names = [val]
+        elif form == "int":
+            if not -len(header) <= val < len(header):
+                return Exc(5)
+            names = [header[val]]
+        else:
+            names = list(val)
+        if not set(names) <= set(header):
+            return Exc(5)
+        if len(set(names)) != len(names):
+            return None
+        idx = [header.index(c) for c in names]
+        scalar = len(names) == 1          # however the single column was spelled
+        keys, counts = [], []
+        for r in rows:
+            kk = [r[i] for i in idx]
+            for n, k2 in enumerate(keys):
+                if k2 == kk:
+                    counts[n] += 1
+                    break
+            else:
+                keys.append(kk)
+                counts.append(1)
+        if k == "distinct_arg":
+            return [scalar, sorted(keys, key=repr)]
+        return [scalar, sorted(([kk, n] for kk, n in zip(keys, counts)), key=repr)]
     if k == "appended":
         if o["newcol"] is not None and o["newcol"] in header:
             return None
@@ -1117,6 +1212,10 @@ def op_dtype_keys(o, cur, tables):
         cols = o.get("columns") if o.get("columns") is not None else header
         for c in cols:
             out.append(f"{k}:{kd.get(c)}")
+    elif k in ("count_unique", "distinct_arg"):
+        a = o["arg"]
+        n = (len(header) if a["form"] == "none" else 1 if a["form"] in ("name", "int") else len(a["value"]))
+        out.append(f"{k}:form={a['form']}:{'one' if n == 1 else 'many' if n > 1 else 'zero'}-column{'' if len(header) != 1 else ':one-column-table'}")
     elif k in ("appended", "transposed", "filtered_by_column"):
         for c in header:
             out.append(f"{k}:{kd.get(c)}")
@@ -1205,14 +1304,29 @@ def compare_ops(rep, c, ir, mr, stats):
                                    broken="a callable callback received numpy scalars instead of Python values"))
         if o["op"] == "distinct" and isinstance(obs, list):
             obs = sorted(obs, key=repr)  # canonical order after floats are decoded
+        if o["op"] in ("count_unique", "distinct_arg") and isinstance(obs, list):
+            cross = obs[2] if o["op"] == "count_unique" else None
+            obs = [obs[0], sorted(obs[1], key=repr)]
+            if cross is not None and not (isinstance(cross, list) and cross[0] == obs[0]
+                                          and sorted(cross[1], key=repr) == sorted([e[0] for e in obs[1]], key=repr)):
+                stats["spec_violations"] += 1
+                rep.violation("count_unique:keys-differ-from-distinct_values",
+                              dict(case=dict(kind="ops", tables=[dict(header=cur["header"], cols=cur["cols"])] + tables[1:], ops=[o]), op=o,
+                                   expected_by_spec="count_unique(arg) has exactly the keys distinct_values(arg) returns, in the same scalar / tuple form",
+                                   observed_impl=dict(count_unique=obs, distinct_values=cross),
+                                   broken="count_unique and distinct_values disagree for the same argument"))
         stats["steps"] += 1
         stats["ops"][o["op"]] = stats["ops"].get(o["op"], 0) + 1
         for dk in op_dtype_keys(o, cur, tables):
             stats.setdefault("op_dtype", {})[dk] = stats.get("op_dtype", {}).get(dk, 0) + 1
         exp = oracle_step(o, cur, tables)
+        if o["op"] in ("count_unique", "distinct_arg") and isinstance(obs, list) and obs[0] is None and isinstance(exp, list):
+            obs = [exp[0], obs[1]]   # no keys: the scalar / tuple form cannot be observed
         if mr is not None and i >= len(mr):
             mr = None  # the model stopped at an error the implementation (legitimately, see below) did not have
         m = mr[i] if mr is not None else None
+        if o["op"] in ("count_unique", "distinct_arg") and isinstance(m, list) and len(m) == 2:
+            m = [m[0], sorted(m[1], key=repr)]
         obs_cmp = {"exc": obs["exc"]} if is_exc(obs) else strip_kinds(obs)
         first = dict(header=cur["header"], cols=cur["cols"])
         if i == 0 and tables[0].get("index_name"):
@@ -1264,11 +1378,11 @@ def compare_ops(rep, c, ir, mr, stats):
                                 expected_by_spec=exp if exp is None or not isinstance(exp, Exc) else None))
         if is_exc(obs):
             break
-        if o["op"] not in ("count", "distinct"):
+        if o["op"] not in ("count", "distinct", "count_unique", "distinct_arg"):
             cur = dict(header=obs[0], cols=obs[1], kinds=obs[3] if len(obs) > 3 else None)
             if nontrivial_step(o, obs):
                 stats["nontrivial"].add(json.dumps([small["tables"], o], sort_keys=True, default=str))
-        elif obs not in (0, []):
+        elif obs not in (0, []) and not (isinstance(obs, list) and len(obs) == 2 and obs[1] == []):
             stats["nontrivial"].add(json.dumps([small["tables"], o], sort_keys=True, default=str))
     return dis
 
@@ -1498,6 +1612,23 @@ def oracle_istep(o, cur, ix, tables):
                 return Exc(5), ix
             return hit[0][header.index(o["col"])], ix
         return dict(mk(header, hit[:1]), index=ix), ix
+    if k == "inner_join_index":
+        # Table.inner_join(other), default use_index=True: rows pair on self[index] == other[other's index]
+        other = with_index_first(tables[o["other"]], o["other_index"])
+        oi = o["other_index"]
+        if ix is None or oi is None:
+            return Exc(2), ix
+        h1, rows1 = other["header"], rows_of(other)
+        mask = [j for j, c in enumerate(h1) if c != oi]
+        nh = header + [o["prefix"] + h1[j] for j in mask]
+        if len(set(nh)) != len(nh):
+            return None, ix
+        i0, i1 = header.index(ix), h1.index(oi)
+        out = [r + [r1[j] for j in mask] for r in rows_of(cur) for r1 in rows1 if r[i0] == r1[i1]]
+        exp = mk(nh, out)
+        if not unique_values(exp["cols"][exp["header"].index(ix)]):
+            return None, ix          # the kept index is no longer unique: the code raises on activation
+        return dict(exp, index=ix), ix
     if k == "get_columns_ix":
         names = list(o["columns"])
         if ix is not None and o["with_index"]:
@@ -1508,7 +1639,7 @@ def oracle_istep(o, cur, ix, tables):
         nix = ix if ix in exp["header"] else None
         return dict(with_index_first(exp, nix), index=nix), nix
     exp = oracle_step(o, cur, tables)
-    if k in ("count", "distinct"):
+    if k in ("count", "distinct", "count_unique", "distinct_arg"):
         return exp, ix
     if not isinstance(exp, dict):
         return None, ix
@@ -1564,8 +1695,12 @@ def compare_iops(rep, c, ir, mr, stats):
             obs_n = [obs[0][:3], obs[1]]
         elif is_exc(obs):
             obs_n = {"exc": obs["exc"]}
+        elif o["op"] in ("count_unique", "distinct_arg") and isinstance(obs, list):
+            obs_n = [obs[0] if obs[0] is not None or not isinstance(exp, list) else exp[0], sorted(obs[1], key=repr)]
         else:
             obs_n = sorted(obs, key=repr) if o["op"] == "distinct" and isinstance(obs, list) else obs
+        if o["op"] in ("count_unique", "distinct_arg") and isinstance(m, list) and len(m) == 2:
+            m = [m[0], sorted(m[1], key=repr)]
         bad = False
         if exp is not None:
             stats["oracle_applied"] += 1
@@ -1596,7 +1731,9 @@ def compare_iops(rep, c, ir, mr, stats):
                     dis.append(dict(key="index:" + o["op"], case=small, op=o, observed_impl=obs, model_output=_jm(m)))
         if is_exc(obs):
             break
-        if o["op"] not in ("count", "distinct", "lookup", "row"):
+        if o["op"] not in ("count", "distinct", "lookup", "row", "count_unique", "distinct_arg"):
+            if not (isinstance(obs, list) and len(obs) == 2 and isinstance(obs[0], list)):
+                break
             cur = dict(header=obs[0][0], cols=obs[0][1], kinds=obs[0][3])
             ix = obs[1]
             if obs[0][2] >= 1:
@@ -1678,9 +1815,38 @@ def index_block(tier, rng):
         [dict(op="count", pred=["eqc", 0, "a"], columns=["y", "id"], form="callable")],
         [dict(op="with_new_column", name="z", expr=["iseq", 1, "r2"], columns=["x", "id"], form="callable")],
         [dict(op="distinct", columns=["y", "id"])], [dict(op="distinct", columns=["x", "id"])],
+        [dict(op="count_unique", arg=dict(form="list", value=["y", "id"]))], [dict(op="count_unique", arg=dict(form="none", omit=True))],
+        [dict(op="count_unique", arg=dict(form="name", value="y"))], [dict(op="count_unique", arg=dict(form="int", value=0))],
+        [dict(op="distinct_arg", arg=dict(form="tuple", value=["y"]))], [dict(op="distinct_arg", arg=dict(form="int", value=-1))],
     ]
     for ops in base_ops:
         cases.append(mkc(ops))
+    # self.inner_join(other) on the two index columns (default use_index=True)
+    ij_others = [
+        dict(header=["gene", "id", "q"], cols=[["r1", "r3", "zz"], [5, 5, 7], [10, 11, 12]]),       # data column named like self's index, repeated values
+        dict(header=["id", "gene", "q"], cols=[["a", "b", "c"], ["r2", "r3", "r1"], [10, 11, 12]]),  # ... unique values, not first
+        dict(header=["id", "q"], cols=[["r3", "r1", "q9"], [1, 2, 3]]),                             # same index name on both sides
+        dict(header=["gene", "q"], cols=[["r2", "r2x", "r1"], [1, 2, 3]]),                          # different names, no clash
+        dict(header=["gene", "id", "x"], cols=[["r1", "r2", "r3"], ["r3", "r1", "r2"], [7, 8, 9]]),  # clash on id AND on a data column x
+    ]
+    for k_o, (ot, oix) in enumerate([(ij_others[0], "gene"), (ij_others[1], "gene"), (ij_others[2], "id"), (ij_others[3], "gene"),
+                                     (ij_others[4], "gene"), (ij_others[4], "id"), (ij_others[0], None)]):
+        for prefix in ("right_", "r."):
+            cases.append(dict(kind="iops", tables=[t0, ot], block="index-join",
+                              ops=[dict(op="inner_join_index", other=1, other_index=oix, prefix=prefix)]))
+        # the neighbours: explicit key columns and the natural join on the same pair of tables
+        cases.append(dict(kind="iops", tables=[t0, ot], block="index-join",
+                          ops=[dict(op="join", other=1, cs=["id"], co=[oix or "gene"], inner=True, prefix="right_")]))
+        cases.append(dict(kind="iops", tables=[t0, ot], block="index-join",
+                          ops=[dict(op="join", other=1, cs=None, co=None, inner=True, prefix="right_")]))
+    cases.append(dict(kind="iops", tables=[dict(t0, index_name=None), ij_others[0]], block="index-join",
+                      ops=[dict(op="inner_join_index", other=1, other_index="gene", prefix="right_")]))
+    # self's index in other positions
+    for ixn in ("x", "y"):
+        tt0 = dict(header=["x", "id", "y"], cols=[[3, 1, 2], ["r1", "r2", "r3"], ["a", "b", "c"]], index_name=ixn)
+        oo = dict(header=["k", ixn, "id"], cols=[[2, 3, 9] if ixn == "x" else ["c", "a", "zz"], [1, 1, 2], ["p", "q", "r"]])
+        cases.append(dict(kind="iops", tables=[tt0, oo], block="index-join",
+                          ops=[dict(op="inner_join_index", other=1, other_index="k", prefix="right_")]))
     # the index column in every position, and invalid indexes
     for ixn in ("x", "id", "y", "nope"):
         cases.append(mkc([dict(op="sorted", columns=None, reverse=["x"])], dict(t0, index_name=ixn)))
@@ -1706,6 +1872,12 @@ def index_block(tier, rng):
         if rng.random() < 0.6 and kind_of(col) == "U":
             # row labels are strings (an int is a row POSITION)
             ops.insert(0, dict(op="lookup", label=rng.choice(col + ["zz"]), col=rng.choice(t["header"])))
+        if len(c["tables"]) > 1 and rng.random() < 0.35:
+            o1 = c["tables"][1]
+            cand = [h for h, colv in zip(o1["header"], o1["cols"]) if colv and unique_values(colv) and None not in colv
+                    and kind_of(colv) in "iU"]
+            if cand:
+                ops = [dict(op="inner_join_index", other=1, other_index=rng.choice(cand), prefix=rng.choice(["right_", "r_"]))]
         cases.append(dict(kind="iops", tables=[dict(t, index_name=ixn)] + c["tables"][1:], ops=ops, block="index-random"))
     # round trips with title / legend / index
     tt = dict(header=["x", "id", "y"], cols=[[3, 1, 2], ["r1", "r2", "r3"], [0.5, 2.0, 1e-05]])
@@ -1719,7 +1891,7 @@ def index_block(tier, rng):
 
 def build_cases(tier, rng):
     cases = corpus_cases() + error_cases()
-    cases += exhaustive_join_block(tier) + exhaustive_sort_block(tier) + exhaustive_types_block(tier) + bigint_block(tier) + exhaustive_rt_block(tier) + typed_rt_block(tier)
+    cases += exhaustive_join_block(tier) + exhaustive_sort_block(tier) + exhaustive_types_block(tier) + count_forms_block(tier) + bigint_block(tier) + exhaustive_rt_block(tier) + typed_rt_block(tier)
     n_ops = 700 if tier == "quick" else 9000
     n_rt = 250 if tier == "quick" else 3000
     cases += [random_ops_case(rng) for _ in range(n_ops)]
